@@ -172,3 +172,6 @@ Definition semver_verdict (c : semver_case) : N :=
     opt_eqb beq (calculate_latest_minor a avail) bmi &&
     opt_eqb beq (calculate_latest_major a avail) bma in
   if ok then 0 else 2.
+
+(* C12: replay a history on the model started from a given (legacy) database content *)
+Definition cache_corr_from (c : db * cache_case) : N := replay (snd c) (fst c) 0.
